@@ -207,6 +207,7 @@ class SimSource:
         self.fault = fault
         self.raised = None
         self.delivered = []
+        self.stopped = False       # iterator personality: StopIteration raised
         self.cap = len(self.plan) + 16
         if not has_close:
             self.close = None
@@ -244,6 +245,7 @@ class SimSource:
     def __next__(self):
         self._fault_check()
         if self.k >= len(self.plan) and self.pos >= len(self.data):
+            self.stopped = True
             raise StopIteration
         return self._take()
 
